@@ -5,7 +5,7 @@
 (* directions having been specified inconsistently (C13 at the spec level),   *)
 (* and every state yields JSON documents (the canonical one plus variants     *)
 (* with null, unknown and kind-contradicting members) replayed into the code. *)
-EXTENDS T2J, J2T, ConvUniverse, TLC, Json, FiniteSets
+EXTENDS T2J, ConvUniverse, TLC, Json, FiniteSets
 
 CONSTANTS EmitCases, Pairs
 VARIABLES val, opt
@@ -21,7 +21,7 @@ Init == val \in {v \in Vals : Len(v.f) < 2 \/ v.f[1].id # v.f[2].id} /\ opt \in 
 Next == UNCHANGED vars
 Spec == Init /\ [][Next]_vars
 
-TO == [i2s |-> opt.i2s, u8 |-> FALSE, nob64 |-> opt.nob64, disallow |-> FALSE]
+TO == [i2s |-> opt.i2s, u8 |-> FALSE, nob64 |-> opt.nob64, disallow |-> FALSE, wreq |-> FALSE, wdef |-> FALSE, wopt |-> FALSE, optbm |-> FALSE]
 JO == [s2i |-> opt.i2s, nob64 |-> opt.nob64, disallow |-> FALSE, wreq |-> FALSE, wdef |-> FALSE, wopt |-> FALSE, optbm |-> FALSE, usedflt |-> FALSE]
 Doc == T2JV(val, RootTy, Defs, TO)
 Back == J2TV(XD(Doc.j), RootTy, Defs, JO)
